@@ -175,8 +175,9 @@ def run(rep):
     def last_cond_is(p_, want, wantenv=None):
         fc = pq.flat_conds(p_.conds[-1:])
         return fc
-    has_len = any(pq.cond_truth(pq.flat_conds(p_.conds), pq.parse("len(V) != self.nval", venv)) is True or
-                  pq.cond_truth(pq.flat_conds(p_.conds), pq.parse("len(V) == self.nval", venv)) is False for p_ in rais) if V is not None else False
+    LEN_FORMS = ("len(V)", "V.size", "V.shape[0]")         # the vector is one-dimensional (flattened by the conversion): the three agree
+    has_len = any(pq.cond_truth(pq.flat_conds(p_.conds), pq.parse(f"{lf} != self.nval", venv)) is True or
+                  pq.cond_truth(pq.flat_conds(p_.conds), pq.parse(f"{lf} == self.nval", venv)) is False for p_ in rais for lf in LEN_FORMS) if V is not None else False
     rep.check(has_len, "R12.b", file, "Vector.__checkvalues__", "length check raises", "", line=cv.lineno)
     NANV = pq.parse("np.any(np.isnan(V))", venv) if V is not None else None
     nan_raise = [p_ for p_ in rais if NANV is not None and pq.cond_truth(pq.flat_conds(p_.conds), NANV) is True and
